@@ -273,6 +273,16 @@ class InputSchema:
             return d
         if t[0] == "object":
             return {"type_id": "object", "id": t[1], "properties": self.props_yaml(t[2])}
+        if t[0] == "integer":
+            d = {"type_id": "integer"}
+            d.update({k: v for k, v in t[1].items() if v is not None})
+            return d
+        if t[0] == "string":
+            d = {"type_id": "string"}
+            d.update({k: v for k, v in t[1].items() if v is not None})
+            return d
+        if t[0] == "enum":
+            return {"type_id": "enum_string", "values": {v: {} for v in t[1]}}
         if t[0] == "raw":
             return t[1]
         raise ValueError(t)
